@@ -23,7 +23,7 @@ class SliceResolver(ElabPass):
     Modifies connections to any nested slices, nested concatenations, or combinations thereof.
     "Full-width" `Slice`s e.g. `sig[:]` are replaced with their parent `Signal`s.
 
-    TODO: `Slice`s with non-unit `step` are converted to `Concat`s."""
+    `Slice`s with non-unit `step` are converted to `Concat`s of their bits."""
 
     def elaborate_module(self, module: Module) -> Module:
         # All arrays must be flattened before getting here, or fail
@@ -74,7 +74,10 @@ def _list_slice(slize: Slice) -> List[Slice]:
         return [_resolve_sliceable(slize.parent)]
 
     if isinstance(slize.parent, Signal):
-        return [slize]  # Already all good! Just make a one-element list.
+        if slize.step == 1:
+            return [slize]  # Already all good! Just make a one-element list.
+        # Strided and reversed slices are not exportable as such. Break them into their bits.
+        return [slize.parent[idx] for idx in _selected(slize)]
 
     if isinstance(slize.parent, (PortRef, BundleRef)):
         # Slice of a (by now resolved) reference: slice its referent instead
